@@ -25,14 +25,14 @@ Definition classified : list (string * string * site_class) := [
   ("coerce.go", "coerceByteCode", Modelled "retval");
   ("types.go", "requiredTypeByteCodeImpl", Modelled "argument");
   ("call.go", "validateFunctionArguments", StrictOnlyRejects);
-  ("branch.go", "branchFalseByteCode", StrictOnlyRejects);
-  ("branch.go", "branchTrueByteCode", StrictOnlyRejects);
-  ("equal.go", "genericEqualCompare", StrictOnlyRejects);
-  ("greaterThan.go", "greaterThanByteCode", StrictOnlyRejects);
-  ("greaterThanorEqual.go", "greaterThanOrEqualByteCode", StrictOnlyRejects);
-  ("lessThan.go", "lessThanByteCode", StrictOnlyRejects);
-  ("lessThanorEqual.go", "lessThanOrEqualByteCode", StrictOnlyRejects);
-  ("notEqual.go", "notEqualByteCode", StrictOnlyRejects);
+  ("branch.go", "branchFalseByteCode", Modelled "condition");
+  ("branch.go", "branchTrueByteCode", Modelled "condition");
+  ("equal.go", "genericEqualCompare", Modelled "compare");
+  ("greaterThan.go", "greaterThanByteCode", Modelled "compare");
+  ("greaterThanorEqual.go", "greaterThanOrEqualByteCode", Modelled "compare");
+  ("lessThan.go", "lessThanByteCode", Modelled "compare");
+  ("lessThanorEqual.go", "lessThanOrEqualByteCode", Modelled "compare");
+  ("notEqual.go", "notEqualByteCode", Modelled "compare");
   ("store.go", "storeStringViaPointer", SameStrictRelaxed);
   ("store.go", "storeFloat32ViaPointer", SameStrictRelaxed);
   ("store.go", "storeFloat64ViaPointer", SameStrictRelaxed);
